@@ -188,10 +188,150 @@ fn small(r: &mut Rng, typical: u64, rare: u64) -> u64 {
     }
 }
 
+/// Levels >= 100 select hand-assembled *stored* deflate blocks (no compressor runs; used under
+/// Miri where the interpreter would spend its time in the deflate encoder).
 pub fn zlib(data: &[u8], level: u32) -> Vec<u8> {
+    if level >= 100 {
+        return zlib_stored(data);
+    }
     let mut e = ZlibEncoder::new(Vec::new(), Compression::new(level.min(9)));
     e.write_all(data).unwrap();
     e.finish().unwrap()
+}
+
+pub fn zlib_stored(data: &[u8]) -> Vec<u8> {
+    let mut out = vec![0x78, 0x01];
+    let mut chunks: Vec<&[u8]> = data.chunks(65535).collect();
+    if chunks.is_empty() {
+        chunks.push(&[]);
+    }
+    let n = chunks.len();
+    for (i, c) in chunks.iter().enumerate() {
+        out.push(if i + 1 == n { 1 } else { 0 });
+        let len = c.len() as u16;
+        out.extend_from_slice(&len.to_le_bytes());
+        out.extend_from_slice(&(!len).to_le_bytes());
+        out.extend_from_slice(c);
+    }
+    let (mut a, mut b) = (1u32, 0u32);
+    for x in data {
+        a = (a + *x as u32) % 65521;
+        b = (b + a) % 65521;
+    }
+    out.extend_from_slice(&((b << 16) | a).to_be_bytes());
+    out
+}
+
+/// A tiny well-formed sprite for interpreter (Miri) runs: canvas <= 6x6, <= 3 layers, <= 2
+/// frames, raw or stored-deflate cels, optional tilemap.
+pub fn gen_tiny_spec(r: &mut Rng) -> SpriteSpec {
+    let fmt = *r.pick(&[Fmt::Rgba, Fmt::Gray, Fmt::Indexed]);
+    let (w, h) = (1 + r.below(5) as u16, 1 + r.below(5) as u16);
+    let nframes = 1 + r.usize_below(2);
+    let mut s = SpriteSpec {
+        width: w,
+        height: h,
+        fmt,
+        transparent: 0,
+        durations: vec![100; nframes],
+        layers: Vec::new(),
+        palette: Some(PaletteSpec {
+            first: 0,
+            entries: (0..4).map(|i| ([i * 60, 255 - i * 60, i, 255], None)).collect(),
+        }),
+        legacy: None,
+        tilesets: Vec::new(),
+        cels: Vec::new(),
+        tags: vec![TagSpec {
+            from: 0,
+            to: 0,
+            dir: 0,
+            repeat: 0,
+            name: "t".into(),
+            ud: None,
+        }],
+        tag_ud_count: 0,
+        slices: Vec::new(),
+        ext_files: vec![(1, 0, "e".into())],
+        color_profile: None,
+        sprite_ud: None,
+        header_frames_override: None,
+    };
+    let dom = [0u8, 1, 2, 3];
+    let with_tilemap = r.chance(1, 2);
+    if with_tilemap {
+        s.tilesets.push(TilesetSpec {
+            id: 0,
+            flags: 6,
+            count: 2,
+            tw: 2,
+            th: 2,
+            base_index: 1,
+            name: "ts".into(),
+            pixels: pixels(r, fmt, 8, &dom),
+            level: 100,
+            ext: (0, 0),
+        });
+    }
+    let nl = 1 + r.usize_below(3);
+    for i in 0..nl {
+        let kind = if with_tilemap && i == nl - 1 { 2 } else if i == 0 && nl == 3 { 1 } else { 0 };
+        s.layers.push(LayerSpec {
+            flags: 1,
+            kind,
+            tileset: 0,
+            level: if i > 0 && s.layers[0].kind == 1 { 1 } else { 0 },
+            blend: r.below(19) as u16,
+            opacity: if r.chance(1, 2) { 255 } else { r.byte() },
+            name: format!("L{}", i),
+            ud: None,
+        });
+        for f in 0..nframes {
+            if kind == 1 {
+                continue;
+            }
+            let body = if kind == 2 {
+                CelBody::Tilemap {
+                    w: 2,
+                    h: 1,
+                    bits: 32,
+                    masks: [0x1fff_ffff, 0x8000_0000, 0x4000_0000, 0x2000_0000],
+                    tiles: vec![1, 0],
+                    level: 100,
+                }
+            } else if f == 1 && r.chance(1, 2) {
+                CelBody::Linked(0)
+            } else {
+                let (cw, ch) = (1 + r.below(3) as u16, 1 + r.below(3) as u16);
+                CelBody::Raw {
+                    w: cw,
+                    h: ch,
+                    pixels: pixels(r, fmt, cw as usize * ch as usize, &dom),
+                    compressed: r.chance(1, 2),
+                    level: 100,
+                }
+            };
+            s.cels.push(CelSpec {
+                frame: f as u16,
+                layer: i as u16,
+                x: r.range(-1, 2) as i16,
+                y: r.range(-1, 2) as i16,
+                opacity: 200,
+                body,
+                ud: None,
+                extra: false,
+            });
+        }
+    }
+    // a linked cel needs its target to be a raw cel in frame 0 of the same layer
+    let raw0: Vec<u16> = s
+        .cels
+        .iter()
+        .filter(|c| c.frame == 0 && matches!(c.body, CelBody::Raw { .. }))
+        .map(|c| c.layer)
+        .collect();
+    s.cels.retain(|c| !matches!(c.body, CelBody::Linked(_)) || raw0.contains(&c.layer));
+    s
 }
 
 /// Which colour indices an indexed sprite may use.
@@ -1506,29 +1646,8 @@ pub fn apply_bug(s: &mut SpriteSpec, bug: &str, r: &mut Rng, scale: usize) -> St
                     ud: None,
                 });
             }
-            s.tag_ud_count = s.tags.len() + 1 + r.usize_below(2);
-            let extra = s.tag_ud_count - s.tags.len();
-            for _ in 0..extra {
-                s.tags.push(TagSpec {
-                    from: 0,
-                    to: 0,
-                    dir: 0,
-                    repeat: 0,
-                    name: "ghost".into(),
-                    ud: None,
-                });
-            }
-            // encode() writes min(tag_ud_count, tags.len()) records; remove ghosts from header
-            // by encoding count specially: handled by caller through `Opaque`? Simpler: keep
-            // ghosts out of the tags chunk by truncating the vector after encoding user data.
-            // We emulate by marking ghosts with dir=0 and then fixing the count in bytes: not
-            // needed — instead write the tags chunk with fewer tags via tag_ud_count > tags.
-            for _ in 0..extra {
-                s.tags.pop();
-            }
-            // add explicit extra user-data through slices-free path: a layer-less trick is not
-            // possible, so we append raw user data chunks by abusing `ext_files`? No: use
-            // dangling marker understood by encode_with_extras().
+            s.tag_ud_count = s.tags.len();
+            // the extra record(s) are inserted on the bytes by encode_with_bug()
             format!("{} user data records after {} tags", s.tag_ud_count, s.tags.len())
         }
         "zlib-corrupt" => {
